@@ -1,0 +1,28 @@
+//go:build verif
+
+package jobconfig
+
+// Contracts for fvc (see /verif/DESIGN.md). Comment-only file.
+
+// The Job name is a pure function of the JobConfig name and the schedule time's Unix second (C02).
+//@ pure jobNameFor(jobConfigName string, unix Int) string = sprintf("%v-%v", jobConfigName, int64(unix))
+
+//@ func GenerateName
+//@   tags C02
+//@   modifies clock
+//@   ensures [C02] name-is-a-function-of-config-and-second: !startTime.IsZero() ==> result == jobNameFor(jobConfigName, startTime.Unix()) && clock == old(clock)
+
+//@ func makeLabels
+//@   tags C02
+//@   requires rjc != nil
+//@   loop 1 invariant desiredLabels != nil && fresh(desiredLabels) && desiredLabels != template.Labels
+//@   loop 1 invariant forall k string :: (k in desiredLabels) ==> visited(k) && desiredLabels[k] == template.Labels[k]
+//@   loop 1 invariant forall k string :: visited(k) ==> (k in desiredLabels) && (k in template.Labels)
+//@   loop 2 invariant desiredLabels != nil && fresh(desiredLabels) && additionalLabels != nil && fresh(additionalLabels) && additionalLabels != desiredLabels
+//@   loop 2 invariant forall k string :: (k in additionalLabels) == (k == LabelKeyJobConfigUID)
+//@   loop 2 invariant additionalLabels[LabelKeyJobConfigUID] == string(rjc.UID)
+//@   loop 2 invariant forall k string :: !(k in additionalLabels) ==> ((k in desiredLabels) == (k in rjc.Spec.Template.Labels) && desiredLabels[k] == rjc.Spec.Template.Labels[k])
+//@   loop 2 invariant forall k string :: (k in additionalLabels) ==> (visited(k) ==> ((k in desiredLabels) && desiredLabels[k] == additionalLabels[k]))
+//@   ensures [C02] uid-label-always-the-jobconfigs: (LabelKeyJobConfigUID in result) && result[LabelKeyJobConfigUID] == string(rjc.UID)
+//@   ensures [C02] template-labels-otherwise: forall k string :: k != LabelKeyJobConfigUID ==> ((k in result) == (k in rjc.Spec.Template.Labels) && result[k] == rjc.Spec.Template.Labels[k])
+//@   ensures [C02] fresh-map: result != nil && fresh(result)
